@@ -71,6 +71,7 @@ const (
 	maxN       = 6
 	bvURL      = "type.googleapis.com/google.protobuf.BytesValue"
 	tsURL      = "type.googleapis.com/google.protobuf.Timestamp"
+	unkURL     = "type.googleapis.com/verif.Unknown"
 	npkURL     = "type.googleapis.com/dkg.dkgpb.v1.NodePubKeyMessage"
 	pedersenID = "/charon/dkg/pedersen/1.0.0/node_pubkeys"
 )
@@ -210,7 +211,12 @@ func boundTo(m proto.Message) int {
 	}
 }
 
+// genCheck is the harness' CheckMessage: BytesValue payloads, plus one type URL no Go type is
+// registered for (signed by everybody, then refused by UnmarshalNew in handleMessage).
 func genCheck(_ context.Context, _ peer.ID, a *anypb.Any) error {
+	if a.GetTypeUrl() == unkURL {
+		return nil
+	}
 	var bv wrapperspb.BytesValue
 	return a.UnmarshalTo(&bv)
 }
@@ -316,9 +322,14 @@ func (ep *episode) delivered(w, m, from int, id string, pay payload, acc bool) {
 	if wd.accepted[key] == nil {
 		wd.accepted[key] = map[int]string{}
 	}
-	prevSame, had := wd.accepted[key][m]
-	for r, pk := range wd.accepted[key] {
-		if pk == pay.key() || (had && r == m && prevSame == pay.key()) {
+	rs := make([]int, 0, len(wd.accepted[key]))
+	for r := range wd.accepted[key] {
+		rs = append(rs, r)
+	}
+	sort.Ints(rs)
+	for _, r := range rs {
+		pk := wd.accepted[key][r]
+		if pk == pay.key() {
 			continue
 		}
 		switch {
@@ -460,6 +471,7 @@ func (ep *episode) callSigReq(w, m, from int, id string, pay payload) (string, [
 		return "ok-but-invalid-signature", nil
 	}
 	ep.signedFor(w, m, from, id, pay)
+	ep.ledger[ledgerKey(m, ep.worlds[w].session, id, pay.key())] = true
 	return "ok", r.GetSignature()
 }
 
@@ -583,6 +595,7 @@ type bcState struct {
 	arrived  int
 	gate     chan struct{}
 	wg       sync.WaitGroup
+	serial   sync.Mutex
 	reqCls   map[int]string
 	reqSig   map[int][]byte
 	msgCls   map[int]string
@@ -598,6 +611,8 @@ func (ep *episode) sendRecv(w, a int) p2p.SendReceiveFunc {
 		}
 		// All requests are in flight before any is answered (forkjoin fails fast otherwise and the
 		// set of peers that saw the request would depend on goroutine scheduling).
+		st.wg.Add(1)
+		defer st.wg.Done()
 		ep.mu.Lock()
 		st.arrived++
 		if st.arrived == st.expected {
@@ -607,16 +622,13 @@ func (ep *episode) sendRecv(w, a int) p2p.SendReceiveFunc {
 		if st.expected > 0 {
 			<-st.gate
 		}
-		ep.mu.Lock()
-		defer ep.mu.Unlock()
-		defer st.wg.Done()
+		st.serial.Lock() // handlers of different peers are independent; serialised for the bookkeeping
+		defer st.serial.Unlock()
 		r := req.(*pb.BCastSigRequest)
 		out := resp.(*pb.BCastSigResponse)
 		switch st.ov[h] {
 		case 'h':
-			ep.mu.Unlock()
 			cls, sig := ep.callSigReq(w, h, a, r.GetId(), payload{r.GetMessage().GetTypeUrl(), r.GetMessage().GetValue()})
-			ep.mu.Lock()
 			st.reqCls[h] = cls
 			if cls != "ok" {
 				return errors.New("sig request refused: " + cls)
@@ -645,6 +657,11 @@ func (ep *episode) send(w, a int) p2p.SendFunc {
 		h := idxOf(pID)
 		m := msg.(*pb.BCastMessage)
 		st.selfSig = m.GetSignatures()[a]
+		if hh, err := bcast.VerifHash(ep.worlds[w].session, st.id, st.pay.any()); err == nil {
+			if good, err := k1util.Verify65(keys[a].PubKey(), hh, st.selfSig); err == nil && good {
+				ep.ledger[ledgerKey(a, ep.worlds[w].session, st.id, st.pay.key())] = true // the client's own signature left the process
+			}
+		}
 		if st.ov[h] != 'h' {
 			st.msgCls[h] = "o"
 			return nil
@@ -676,10 +693,9 @@ func (ep *episode) doBcast(w, a int, id string, pay payload, ov string, clientRe
 		reqCls: map[int]string{}, reqSig: map[int][]byte{}, msgCls: map[int]string{}}
 	if clientRegistered {
 		st.expected = ep.n - 1
-	} else {
-		st.expected = a // requests forked before the client's own slot (racy in Go unless a == 0, see generator)
 	}
-	st.wg.Add(st.expected)
+	// (unregistered client: the requests forked before the client's own slot race with the
+	// cancellation on return; no gate, whatever got out is processed. The generator only uses a == 0.)
 	ep.bc = st
 	if !ep.isFaulty(a) {
 		if b := ep.flags(w, pay)[2]; b != byte('0'+a) {
@@ -687,6 +703,9 @@ func (ep *episode) doBcast(w, a int, id string, pay payload, ov string, clientRe
 		}
 	}
 	berr := wd.comps[a].Broadcast(ep.ctx, id, msg)
+	if !clientRegistered && a > 0 {
+		time.Sleep(20 * time.Millisecond)
+	}
 	st.wg.Wait()
 	ep.bc = nil
 
@@ -859,7 +878,7 @@ func (g *gen) ownPay(w, owner int) payload {
 func (g *gen) weirdPay() payload {
 	switch g.rng.Intn(4) {
 	case 0:
-		return payload{"type.googleapis.com/verif.Unknown", []byte{1, 2, 3}}
+		return payload{unkURL, []byte{1, 2, 3}}
 	case 1:
 		return payload{bvURL, []byte{0xff, 0xff, 0xff}} // does not unmarshal
 	case 2:
@@ -999,6 +1018,14 @@ func (g *gen) equivocate(w int, withhold bool) {
 	f := g.pick(fs)
 	id := g.ids[g.rng.Intn(len(g.ids))]
 	pays := []payload{g.ownPay(w, f), g.ownPay(w, f)}
+	switch g.rng.Intn(6) {
+	case 0, 1:
+		pays[1] = pays[0] // no equivocation: a (faulty) sender behaving well
+	case 2:
+		if ep.app != "pedersen" {
+			pays[1] = payload{unkURL, []byte{byte(f), byte(g.rng.Intn(3))}} // signed by all, cannot be unmarshalled
+		}
+	}
 	for _, m := range g.rng.Perm(ep.n) {
 		if m == f || (withhold && g.rng.Chance(1, 3)) {
 			continue
@@ -1198,6 +1225,9 @@ func (g *gen) pedersenRelay() {
 	}
 	f, a := fs[0], hs[0]
 	w := 0
+	if !g.d.reg[fmt.Sprintf("%d|%d|%s", w, a, pedersenID)] {
+		return
+	}
 	mk := func(owner int) payload {
 		return payOfMsg(&pb.NodePubKeyMessage{SessionId: ep.worlds[w].session, PublicKey: []byte{byte(owner), 0x55, 0x66}})
 	}
